@@ -347,8 +347,18 @@ from mc.checks import c13
 n, viols, outcomes = 0, [], {}
 for si, stage in enumerate(stages):
     if si:
+        failed = None
         for m in stage:
-            importlib.import_module("measured." + m)
+            try:
+                importlib.import_module("measured." + m)
+            except Exception as e:
+                failed = f"{type(e).__name__}: {e}"
+                break
+        if failed:
+            # text parsed in the earlier stage left something behind that now collides with a
+            # shipped declaration
+            viols.append(["import_fails_after_parsing", f"stage {stage}", f"after a full round trip over {stages[:si]}, importing measured.{m} raised {failed}", {"conf": conf, "a": None, "stage": si}])
+            break
         c13._ORACLE = None
     units = c13.named_units(w)
     pre = c13.prefixes(w)
@@ -438,6 +448,13 @@ def replay(obj, kind=None):
     w = get_world()
     if "a" in obj:
         un, pn, e = obj["a"]
+        # one unit's prefixes and exponents share a restored state: re-run that row first
+        names = [x.name for x in named_units(w)]
+        if un in names:
+            n_, viols_, _ = _a_chunk([names.index(un)])
+            hit = [v for v in viols_ if v[3]["a"] == obj["a"] and (kind is None or v[0] == kind)]
+            if hit:
+                return True, hit[0][2]
         u = w.m.Unit._by_name[un]
         p = w.m.Prefix._by_name[pn] if pn else w.m.IdentityPrefix
         oc, v = judge_unit(w, (p * u) ** e, f"({pn}*{un})**{e}")
